@@ -608,6 +608,9 @@ class Gen:
 
     def emit_field(self, w, ind):
         r = self.r
+        if self.o.javadoc and r.random() < 0.3:
+            # a documented field: the comment belongs to the field, not to whatever class or method comes next
+            self.emit_javadoc(w, ind, False, [], [])
         s = w.pos
         vis = r.choice(VIS)
         mods = [vis] if vis else []
